@@ -23,6 +23,7 @@ from .common import import_redress
 NONE = -1
 UNOBS = -2
 SLEEPER_EXC = -3
+BSLEEP_EXC = -4
 NOT_OURS = -7          # an object that is not one of the environment's own
 NOT_TICKS = -999       # a float that is not a whole number of ticks
 
@@ -36,6 +37,10 @@ class OpError(Exception):
     def __init__(self, attempt: int, klass: str, ra: int) -> None:
         super().__init__(f"op failure #{attempt}")
         self.attempt, self.klass, self.ra = attempt, klass, ra
+
+
+class HookError(Exception):
+    """ordinary exception raised by an observability hook"""
 
 
 class Value:
@@ -83,7 +88,7 @@ def class_perm(seed: int) -> dict[str, str]:
 class Env:
     def __init__(self, cfg: dict, events: list[dict], *, perm: dict[str, str] | None = None,
                  is_async: bool = False, async_callbacks: bool = False,
-                 hook_fault: dict | None = None) -> None:
+                 hook_fault: dict | None = None, wall: str = "jump") -> None:
         import_redress()
         from redress.errors import ErrorClass
 
@@ -94,17 +99,18 @@ class Env:
         self.is_async = is_async
         self.async_callbacks = async_callbacks      # awaitable before_sleep / sleeper
         self.hook_fault = hook_fault or {}
-        self.clock = vtime.VClock()
+        self.clock = vtime.VClock(wall=wall)
         self.trace: list[dict] = []
         self.t0 = 0
         # script queues
         self.q = {kind: [e for e in events if e["e"] == kind]
-                  for kind in ("invoke", "strategy", "poll", "handler", "sleep")}
+                  for kind in ("invoke", "strategy", "poll", "handler", "sleep", "bsleep")}
         self.qi = {kind: 0 for kind in self.q}
         self.raised: list[BaseException] = []
         self.raised_n: list[int] = []
         self.values: list[Value] = []
         self.sleeper_exc: BaseException | None = None
+        self.bsleep_exc: BaseException | None = None
         self.ninv = 0
         self.hook_calls = {"metric": 0, "log": 0, "bsleep": 0}
 
@@ -132,6 +138,7 @@ class Env:
         self.raised_n = []
         self.values = []
         self.sleeper_exc = None
+        self.bsleep_exc = None
 
     # ------------------------------------------------------------------ operation
     def op(self) -> Any:
@@ -264,14 +271,38 @@ class Env:
         if f.get("hook") == name and (f.get("at") == "always" or f.get("at") == self.hook_calls[name]):
             raise f["exc"]()
 
-    def before_sleep(self, ctx, sleep_s):
-        self.trace.append({"e": "bsleep", "sleep": ticks(sleep_s), "t": self.now()})
+    def _bsleep_common(self, sleep_s) -> None:
+        sc = self._next("bsleep")
+        fault = sc.get("fault", "none") if sc else "none"
+        self.trace.append({"e": "bsleep", "sleep": ticks(sleep_s), "fault": fault, "t": self.now()})
         self._hook_raises("bsleep")
+        if fault == "error":
+            raise HookError("before_sleep failed")
+        if fault in ("kbd", "sysexit", "cancel"):
+            exc = {"kbd": KeyboardInterrupt, "sysexit": SystemExit,
+                   "cancel": asyncio.CancelledError}[fault]()
+            self.bsleep_exc = exc
+            raise exc
+
+    def before_sleep(self, ctx, sleep_s):
+        self._bsleep_common(sleep_s)
 
     async def abefore_sleep(self, ctx, sleep_s):
-        self.trace.append({"e": "bsleep", "sleep": ticks(sleep_s), "t": self.now()})
         await _Suspend("bsleep")
-        self._hook_raises("bsleep")
+        self._bsleep_common(sleep_s)
+
+    # decoys: policy-level callbacks that must never run when call-level ones are given
+    def decoy_handler(self, ctx, sleep_s):
+        from redress.sleep import SleepDecision
+        self.trace.append({"e": "decoy", "what": "handler", "t": self.now()})
+        return SleepDecision.SLEEP
+
+    def decoy_before_sleep(self, ctx, sleep_s):
+        self.trace.append({"e": "decoy", "what": "before_sleep", "t": self.now()})
+
+    def decoy_sleeper(self, s):
+        self.trace.append({"e": "decoy", "what": "sleeper", "t": self.now()})
+        self.clock.advance(max(0, ticks(s)))
 
     def _sleep_common(self, s: float) -> None:
         sc = self._next("sleep")
@@ -381,6 +412,8 @@ class Env:
 
         if self.sleeper_exc is not None and exc is self.sleeper_exc:
             return self._view(kind="cancel", id=SLEEPER_EXC, own=True)
+        if self.bsleep_exc is not None and exc is self.bsleep_exc:
+            return self._view(kind="cancel", id=BSLEEP_EXC, own=True)
         eid = self._exc_id(exc)
         if eid != NOT_OURS and eid != NONE:
             if isinstance(exc, OpError):
@@ -443,8 +476,15 @@ def retry_kwargs(env: Env, cfg: dict, *, place: str = "call") -> tuple[dict, dic
     else:
         bsleep = env.before_sleep if cfg["bsleep"] else None
         sleeper = env.sleeper
-    target = call if place == "call" else ctor
-    target.update(sleep=handler, before_sleep=bsleep, sleeper=sleeper)
+    if place == "both":
+        # call-level callbacks must win over policy-level ones
+        ctor.update(sleep=env.decoy_handler if handler else None,
+                    before_sleep=env.decoy_before_sleep if bsleep else None,
+                    sleeper=env.decoy_sleeper)
+        call.update(sleep=handler, before_sleep=bsleep, sleeper=sleeper)
+    else:
+        target = call if place == "call" else ctor
+        target.update(sleep=handler, before_sleep=bsleep, sleeper=sleeper)
     return ctor, call
 
 
@@ -483,12 +523,13 @@ ENTRY_POINTS = ("Retry", "AsyncRetry")
 
 
 def run_scenario(cfg: dict, events: list[dict], *, entry: str, perm=None, place: str = "call",
-                 async_callbacks: bool = False, hook_fault: dict | None = None) -> list[dict]:
+                 async_callbacks: bool = False, hook_fault: dict | None = None,
+                 wall: str = "jump") -> list[dict]:
     """Execute the scenario through one entry point of the real library; returns the observed
     event list (same vocabulary as M's behaviours)."""
     is_async = entry.startswith("Async")
     env = Env(cfg, events, perm=perm, is_async=is_async, async_callbacks=async_callbacks,
-              hook_fault=hook_fault)
+              hook_fault=hook_fault, wall=wall)
     import redress.policy as rp
 
     ctor, call = retry_kwargs(env, cfg, place=place)
